@@ -35,7 +35,7 @@ def replay(ob):
     if ".add." in n:
         return HEAD + "main(['abs_add'])\n"
     if "MaterializeReshapeShape" in n:
-        return HEAD + "main(['materialize_reshape_zero', 'materialize_reshape_literal_zero'])\n"
+        return HEAD + "main(['materialize_reshape_zero', 'materialize_reshape_literal_zero', 'materialize_reshape_search'])\n"
     if "expand_removable" in n:
         return HEAD + "main(['expand_rank'])\n"
     return None
